@@ -13,15 +13,16 @@ from harness.common import Ck, coq_list, coq_str, coq_bytes, parse_coq_N_list
 from translate import c19_walk
 
 MANIFEST = dict(
-    technique='Rocq proof (backends as translated operation lists refining one folded-name map for every query string; walk_folder exactness for the sound folder forms; RawFileSystem lookup/walk from its translated operations; chain first-match / priority / prefix / de-duplication laws and their composition: every entry of the chain walk is what the chain lookup returns, and conversely) + fail-closed ast translator of every normalisation, folder test, walk source, add_sys branch and de-duplication shape + instance obligations and an instance theorem at the generated configuration + vm_compute correspondence over the four real backends and chains + differential oracle',
+    technique='Rocq proof (backends as translated operation lists refining one folded-name map for every query string; walk_folder exactness for the sound folder forms; RawFileSystem lookup/walk from its translated operations; chain first-match / priority / prefix / de-duplication laws; every public lookup form of a chain - [], in, _get_file, _file_exists, open_bin, open_str, the bytes read, walk_folder, iter - equal to one specification function for members of any backend kind; the VPK content expression and the container reader FileInfo.read() as translated expressions that return the stored bytes in every placement) + fail-closed ast translator working on a canonical form of filesys.py / vpk.py (semantic normalisation, 14 rewrite rules) + instance obligations and two instance theorems at the generated configuration + vm_compute correspondence over the four real backends and chains + differential oracle',
     text='Theorems in Props/C19.v, generic over a backend record of normalisation operations regenerated from filesys.py on every run. '
          'Lookup: backends whose query functions convert the slashes, normalise the path and fold the case (today\'s source, obligation *_keys_normalise_every_spelling) agree with each other and with the specification map (folded name -> last stored file) on _get_file, _file_exists and open_bin for EVERY query string; empty and "." segments, either slash and letter case are proved insignificant (c19_normpath_noise, c19_lookup_noise_insensitive); any other recognised form agrees on queries normpath leaves alone (c19_lookup_agree); the pinned forms are refuted on "./x" and ".\\x". '
+         'Bytes: what VPKFileSystem.open_bin/open_str read is a translated expression over the FileInfo, and FileInfo.read() itself is translated from vpk.py with the slice displacements found in the source; expressions recognised as whole return the stored bytes for every split between preload and rest, for the directory tail, a numbered archive and a single-file VPK, wherever the rest lies (c19_vpk_content_whole_all_placements, c19_vpk_open_same_bytes, c19_vpk_reader_whole_all_placements, c19_vpk_open_through_reader); the preload shortcut and the one-byte-short slice are refuted. '
          'RawFileSystem, from the operations that reach _resolve_path: an exact-case name in any spelling and either slash finds the stored file in the directory backend and in every folding backend; its walk lists exactly the files below the normalised folder and every listed name looks up. '
          'walk_folder with a sound form (dictionary source, folded key compared with a folder-boundary prefix) lists exactly the surviving files inside the folder (empty folder = all), every listed name looks up to that file, no name twice; string-prefix, root-is-dot, case-sensitive, container-prefilter (VPK.fileinfos) and container-iteration forms are refuted by kernel-computed witnesses. '
-         'FileSystemChain: _get_file returns the first member that has the name; priority insertion first / plain insertion last (both add_sys branches translated); restricted members are asked for prefix/name; the de-duplicated walk lists each folded name once keeping the first member\'s entry, the dict-overwrite shape is refuted. '
-         'Composition (c19_chain_walk_lookup_closed, c19_chain_walk_complete): for any list of sound members with empty or clean prefixes and an empty or clean folder, every (path, File) the de-duplicated walk lists is exactly what chain[path] returns (first member wins, listed names look up), and every clean name inside the folder that the chain serves is listed with that File; the theorem is re-instantiated at the generated configuration on every run. '
-         'The generated model is compared with the real Virtual/Zip/VPK/Raw backends (lookups in all spellings, walks of normalised and un-normalised folders) and with chains (lookup, walk_folder, walk_folder_repeat); a reference oracle written from the property checks the four real backends and chains of up to 4 members in all orderings, plus non-ASCII case folding for the in-memory and zip backends.',
-    note='Trusted: Coq kernel + vm_compute, translate/c19_walk.py, zipfile, the VPK writer of vpk.py (and VPK.fileinfos only through a shape check), the OS directory semantics (RawFileSystem: exact names via os.path.isfile/open/os.walk after abspath; RootEscapeError belongs to C18). Model restrictions: ASCII case folding only in the model (non-ASCII casefold is searched on the in-memory and zip backends; VPK names are ASCII); stored names are clean relative "/" paths; ".." segments are modelled (full posixpath.normpath) and compared by correspondence but the general noise theorem covers only empty and "." segments; the composition theorems assume empty or clean prefixes and folders (other spellings: correspondence and oracle); absolute paths are outside the statement. Which of two stored names differing only in case wins depends on container order (c19_lookup_order_matters_for_case_duplicates); VPK regroups files, see known finding case-duplicate-winner-vpk-differs. Observations (not violations): RawFileSystem.open_bin of a directory raises IsADirectoryError where the others raise FileNotFoundError; File.path of a lookup differs per backend.',
+         'FileSystemChain: c19_chain_every_form_spec - for every query string and every list of members of whatever backend kind (no premise on the prefixes) chain[q] / _get_file(q), the resolution of open_bin / open_str(q), q in chain / _file_exists(q) in every recognised sound shape and the bytes read from the handle are the specification function chain_spec (first member, in priority order, whose files contain subfolder/name up to case, slash kind and redundant segments); hence the backend kind of a member is unobservable through a chain (c19_chain_backend_kind_unobservable); a _file_exists loop that re-assigns the joined name is refuted (c19_chain_exists_carried_name_refuted). Priority insertion first / plain insertion last (both add_sys branches translated); the de-duplicated walk lists each folded name once keeping the first member\'s entry, the dict-overwrite shape is refuted. '
+         'Composition (c19_chain_walk_lookup_closed, c19_chain_walk_complete, c19_chain_walk_every_entry_spec, c19_chain_walk_lists_spec, c19_chain_iter_lists_spec): for members with empty or clean prefixes and an empty or clean folder, every (path, File) the de-duplicated walk lists is the specification\'s answer for path (it looks up in every form and reads the listed bytes), and every clean name the specification serves inside the folder is listed with that File; iter(chain) lists every clean name served. All of these are re-instantiated at the generated configuration on every run. '
+         'The generated model is compared with the real Virtual/Zip/VPK/Raw backends (lookups in all spellings incl. open_str, VPKs written in 7 data placements, walks of normalised and un-normalised folders) and with chains ([], in, open_bin, open_str, walk_folder, walk_folder_repeat); a reference oracle written from the property checks every public form on the four real backends and on chains of up to 4 members in all orderings, file contents for 5 VPK placement classes with sizes around the preload limits (1024, 65535), plus non-ASCII case folding for the in-memory and zip backends.',
+    note='Trusted: Coq kernel + vm_compute, translate/c19_walk.py (incl. its canonicalisation rewrites, each an equivalence of Python programs), zipfile, the VPK writer of vpk.py (where the bytes are put; the reader is translated; VPK.fileinfos only through a shape check), which numbered archive file is opened (C13), the OS directory semantics (RawFileSystem: exact names via os.path.isfile/open/os.walk after abspath; RootEscapeError belongs to C18). Model restrictions: ASCII case folding only in the model (non-ASCII casefold is searched on the in-memory and zip backends; VPK names are ASCII); stored names are clean relative "/" paths; ".." segments are modelled (full posixpath.normpath) and compared by correspondence but the general noise theorem covers only empty and "." segments; the walk/composition theorems assume empty or clean prefixes and folders (other spellings: correspondence and oracle) - the chain lookup theorem has no such premise; absolute paths are outside the statement; reading a slice of the wrong home is modelled as returning nothing (such readers are never recognised as whole). Which of two stored names differing only in case wins depends on container order (c19_lookup_order_matters_for_case_duplicates); VPK regroups files, see known finding case-duplicate-winner-vpk-differs. Observations (not violations): RawFileSystem.open_bin of a directory raises IsADirectoryError where the others raise FileNotFoundError; File.path of a lookup differs per backend.',
 )
 
 IMPORTS = ['Coq.Lists.List', 'Coq.NArith.NArith', 'Coq.Bool.Bool', 'SV.SM.FsChain', 'SV.SM.FsChainForms', 'SV.SM.FsChainRead', 'SV.Gen.FsWalk_gen']
@@ -1323,11 +1324,18 @@ def run(ck: Ck) -> None:
                'missing; the directory backend gets the exact-case subset in either slash; three fixed non-ASCII sets (ß/SS, final '
                'sigma, dotted I, ligatures) for the in-memory and zip backends; chains: 1-4 members over 1-3 file sets, optional '
                'subfolder prefix in several spellings (exact, trailing slash, re-cased, backslashed, "./d", "d/."), priority flags, '
-               'every ordering of chains of up to 3 (thorough: 4) members; walk_folder and walk_folder_repeat. '
+               'every ordering of chains of up to 3 (thorough: 4) members; walk_folder and walk_folder_repeat; every public form '
+               '([], in, _get_file, _file_exists, open_bin, open_str, File.open_str, iter) on backends and chains; VPKs written in every data '
+               'placement (preload only, directory tail, numbered archive, single file, no limit) with file sizes 0-100 and around 1024 / 65535. '
                'Distinct = different name list (sets) or member tuple (chains); non-trivial = at least two files / two members.')
     ck.trusted.append('hand-written model SM/FsChain.v interpreted over Gen/FsWalk_gen.v (tied by correspondence on every run)')
     ck.trusted.append('zipfile, srctools.vpk.VPK writer/reader and the OS directory tree used to build the real backends; posixpath')
     ck.trusted.append('vpk.py VPK.fileinfos is read only when walk_folder calls it (shape check of its directory pre-filter)')
+    ck.trusted.append('translate/c19_walk.py matches on a canonical form: its rewrite rules (inlining of single-return helpers, single-assignment '
+                      'locals and module constants, loop/comprehension, if-continue, try/else, for/else, keyword arguments, SSA renaming) are '
+                      'equivalences of Python programs and are trusted as such')
+    ck.trusted.append('vpk.py FileInfo.read() is translated (slice displacements, homes, tests); FileInfo.write (where the bytes are put) and the '
+                      'name of the numbered archive that is opened are trusted here (property C13)')
     ck.assumptions.append('case folding is modelled for ASCII only (non-ASCII casefold: oracle on the in-memory and zip backends); stored names are clean relative paths using "/"')
     ck.assumptions.append('the platform is POSIX with a case-sensitive file system (RawFileSystem: exact names only; "\\" is converted by the library, not by the OS)')
     ck.assumptions.append('composition theorems: member prefixes and the folder argument are empty or clean relative paths (either slash, any case)')
